@@ -41,8 +41,8 @@ func (a acct) hasMEV() bool {
 // tables are the four independent tables eligibility is a conjunction over, plus the treasury rates.
 type tables struct {
 	SnapID  uint64
-	Snap    map[string]map[string]acct // validator -> chain -> account (snapshot entry)
-	Metrics map[string]bool            // validator has a performance record
+	Snap    map[string]map[string]acct   // validator -> chain -> account (snapshot entry)
+	Metrics map[string]bool              // validator has a performance record
 	Fees    map[string]map[string]string // validator -> chain -> relayer multiplier (decimal string)
 	CF, SF  string                       // community / security rate (decimal strings)
 }
@@ -178,23 +178,23 @@ func keys(m map[string]bool) []string {
 // queue contents
 
 type qItem struct {
-	ID       uint64    `json:"id"`
-	Kind     string    `json:"kind"` // slc | valset | upload | userupload | handover | other
-	Chain    string    `json:"chain"`
-	Assignee string    `json:"assignee"`
-	Remote   string    `json:"remote"`
-	Sender   []byte    `json:"sender,omitempty"`
-	Mev      bool      `json:"mev,omitempty"`
-	ReqGas   bool      `json:"req_gas"`
-	Gas      uint64    `json:"gas"`
-	NEst     int       `json:"n_est"`
-	NSig     int       `json:"n_sig"`
-	PAD      bool      `json:"pad,omitempty"`
-	Err      bool      `json:"err,omitempty"`
-	ReqSig   bool      `json:"req_sig"`
-	FeePayer bool      `json:"fee_payer,omitempty"`
+	ID       uint64     `json:"id"`
+	Kind     string     `json:"kind"` // slc | valset | upload | userupload | handover | other
+	Chain    string     `json:"chain"`
+	Assignee string     `json:"assignee"`
+	Remote   string     `json:"remote"`
+	Sender   []byte     `json:"sender,omitempty"`
+	Mev      bool       `json:"mev,omitempty"`
+	ReqGas   bool       `json:"req_gas"`
+	Gas      uint64     `json:"gas"`
+	NEst     int        `json:"n_est"`
+	NSig     int        `json:"n_sig"`
+	PAD      bool       `json:"pad,omitempty"`
+	Err      bool       `json:"err,omitempty"`
+	ReqSig   bool       `json:"req_sig"`
+	FeePayer bool       `json:"fee_payer,omitempty"`
 	Fees     *[3]uint64 `json:"fees,omitempty"` // relayer, community, security
-	IsEvm    bool      `json:"is_evm"`
+	IsEvm    bool       `json:"is_evm"`
 }
 
 func readQueue(c *chain.Chain, ctx sdk.Context, chainRef string) ([]qItem, error) {
